@@ -14,7 +14,7 @@ segment forms are '[int]' and escape_path_section(key, own separator).)
 from __future__ import annotations
 
 import ast
-from typing import Dict, List, Optional, Set, Tuple
+from typing import Any, Dict, List, Optional, Set, Tuple
 
 from sa import coords
 from sa.coords import (Derivation, check_tuple, derive, incoming_roles,
@@ -406,7 +406,31 @@ def d3_immutable(chk: Check, funcs: List[FuncInfo]) -> None:
              "`+`, which copies); YAMLPath.__add__ mutates a fresh copy",
              floor=40)
     ef = Effects(prog)
-    subjects = list(funcs) + [prog.func("YAMLPath.__add__")]
+    add = prog.func("YAMLPath.__add__")
+    subjects = list(funcs) + [add]
+    # `+` must not change its left operand: no call of a self-mutating
+    # method on `self` inside __add__
+    ypath = [f for f in prog.functions.values()
+             if f.cls is not None and f.cls.name == "YAMLPath"]
+    ef.summarise(ypath)
+    types = types_of(prog, add)
+    for n in walk_local(add.node):
+        if isinstance(n, ast.Call) and isinstance(n.func, ast.Attribute) and \
+                isinstance(n.func.value, ast.Name) and \
+                n.func.value.id == "self":
+            for callee in resolve_call(prog, add, n, types):
+                if "self" in ef.mutated_params.get(callee.qual, set()):
+                    chk.fail("C02-D3", add, n, "self." + n.func.attr + "()",
+                             "`+` calls `{}` on its own left operand, which "
+                             "mutates it: every path sharing that object "
+                             "changes".format(callee.short))
+                else:
+                    chk.ok("C02-D3", add, n, "self." + n.func.attr + "()",
+                           "callee does not mutate self")
+        if isinstance(n, ast.Attribute) and isinstance(n.ctx, ast.Store) \
+                and src(n.value) == "self":
+            chk.fail("C02-D3", add, n, "self." + n.attr + " = ...",
+                     "`+` stores into its own left operand")
     for fi in subjects:
         for site in mutation_sites(fi):
             cls, detail = ef.classify(site)
@@ -458,18 +482,62 @@ def escape_alphabet(prog: Program) -> Tuple[Set[str], bool]:
     return syms, has_sep
 
 
+def parser_roles(prog: Program) -> Dict[str, Any]:
+    """Role discovery in the parser: loop, character variable, separator
+    text variable, stack, flags and counters (no local names assumed)."""
+    from sa.stackstate import find_stacks
+    fi = prog.func("YAMLPath._parse_path")
+    loops = [n for n in fi.node.body if isinstance(n, ast.For)
+             and isinstance(n.iter, ast.Call)
+             and src(n.iter.func) == "enumerate"]
+    if len(loops) != 1:
+        raise AnalysisError("parser loop not found")
+    loop = loops[0]
+    if not (isinstance(loop.target, ast.Tuple) and len(loop.target.elts) == 2):
+        raise AnalysisError("parser loop target changed")
+    char = src(loop.target.elts[1])
+    sep = None
+    none_init: List[str] = []
+    zero_init: List[str] = []
+    boolish: Set[str] = set()
+    seen: Set[str] = set()
+    for n in walk_local(fi.node):
+        if isinstance(n, (ast.Assign, ast.AnnAssign)):
+            tgt = n.targets[0] if isinstance(n, ast.Assign) else n.target
+            if not isinstance(tgt, ast.Name) or n.value is None:
+                continue
+            v = n.value
+            if isinstance(v, ast.Call) and src(v.func) == "str" and v.args \
+                    and src(v.args[0]).endswith(".separator"):
+                sep = tgt.id
+            if isinstance(v, ast.Constant):
+                if isinstance(v.value, bool):
+                    boolish.add(tgt.id)
+                elif tgt.id not in seen and v.value is None:
+                    none_init.append(tgt.id)
+                elif tgt.id not in seen and v.value == 0 and \
+                        isinstance(v.value, int):
+                    zero_init.append(tgt.id)
+            seen.add(tgt.id)
+    stacks = find_stacks(fi)
+    if sep is None or not stacks:
+        raise AnalysisError("parser separator/stack roles not found")
+    return {"fi": fi, "loop": loop, "char": char, "sep": sep,
+            "none_init": none_init, "zero_init": zero_init,
+            "boolish": sorted(boolish), "stack": stacks[0][0],
+            "mirror": stacks[0][1]}
+
+
 def parser_base_specials(prog: Program) -> Dict[str, str]:
     """Characters that the parser does not record as plain text when it is
     in its base state (no open demarcation, no pending flags)."""
-    fi = prog.func("YAMLPath._parse_path")
-    loops = [n for n in fi.node.body if isinstance(n, ast.For)]
-    if len(loops) != 1:
-        raise AnalysisError("parser loop not found")
-    body = loops[0].body
+    r = parser_roles(prog)
+    loop = r["loop"]
+    body = loop.body
     pe = PEval(enum_classes={"PathSegmentTypes", "PathSearchMethods",
                              "PathSearchKeywords", "CollectorOperators"})
     chars = set()
-    for n in walk_local(loops[0]):
+    for n in walk_local(loop):
         if isinstance(n, ast.Constant) and isinstance(n.value, str) and \
                 len(n.value) == 1:
             chars.add(n.value)
@@ -477,35 +545,35 @@ def parser_base_specials(prog: Program) -> Dict[str, str]:
     out: Dict[str, str] = {}
     for sep in ("/", "."):
         for c in sorted(chars | {sep}):
-            env = {
-                "char": Const(c), "pathsep": Const(sep),
-                "escape_next": Const(False), "capturing_regex": Const(False),
-                "seeking_regex_delim": Const(False),
-                "seeking_anchor_mark": Const(False),
-                "seeking_collector_operator": Const(False),
-                "next_char_must_be": Const(None),
-                "collector_level": Const(0),
-                "len(demarc_stack)": Const(0),
+            env: Dict[str, Any] = {
+                r["char"]: Const(c), r["sep"]: Const(sep),
+                "len({})".format(r["stack"]): Const(0),
                 "strip_escapes": Const(True),
             }
+            for b in r["boolish"]:
+                env[b] = Const(False)
+            for nm in r["none_init"]:
+                env[nm] = Const(None)
+            for nm in r["zero_init"]:
+                env[nm] = Const(0)
             res = pe.specialise(body, env)
-            plain = _is_plain_append(res)
+            plain = _is_plain_append(res, r["char"], r["stack"])
             if not plain:
                 out[c if c != sep else "<sep>"] = "special"
     return out
 
 
-def _is_plain_append(res: List[ast.stmt]) -> bool:
-    """Residual records the character: contains ``segment_id += char`` and
-    no raise / continue / stack operation before it."""
+def _is_plain_append(res: List[ast.stmt], char: str, stack: str) -> bool:
+    """Residual records the character: reaches ``<text> += char`` with no
+    raise / continue / undecided branch / stack operation before it."""
     for s in res:
-        if isinstance(s, ast.AugAssign) and src(s.target) == "segment_id" \
-                and src(s.value) == "char":
+        if isinstance(s, ast.AugAssign) and isinstance(s.op, ast.Add) and \
+                src(s.value) == char:
             return True
         if isinstance(s, (ast.Raise, ast.Continue, ast.If)):
             return False
         if isinstance(s, ast.Expr) and isinstance(s.value, ast.Call) and \
-                src(s.value.func).startswith("demarc_stack."):
+                src(s.value.func).startswith(stack + "."):
             return False
     return False
 
